@@ -2823,6 +2823,221 @@ def test_result_exit_code(a):
             a.candidates.append(x)
 
 
+def param_ctx_end_record(a):
+    """the record hook of a parameterised rule call (ResolvedParameterContext::end_record): what it may change in a record"""
+    RT = enum_variants(a.src, "rules/mod.rs", "RecordType")
+    NS = struct_fields(a.src, "rules/mod.rs", "NamedStatus")
+    ex = a.exec(r"(?:rules::)?eval::<impl at guard/src/rules/eval\.rs:\d+:\d+: \d+:\d+>::end_record",
+                {"eq": lambda ex, av: ex.havoc("bool"), "ne": lambda ex, av: ex.havoc("bool"), "end_record": mirexec.m_result_unit,
+                 "clone": mirexec.m_identity, "deref": mirexec.m_identity},
+                log=("eq", "ne"), unroll=1, max_paths=500, first_arg_re=r"_1: &mut ResolvedParameterContext")
+    a.fns.append("rules::eval::<ResolvedParameterContext as RecordTracer>::end_record")
+    me, ctx, rec = ex.arg_env["_1"], ex.arg_env["_2"], ex.arg_env["_3"]
+    is_rule = f"(= {disc(ex, rec)} {RT.index('RuleCheck')})"
+    ns = payload(ex, rec, "RuleCheck")
+    nm, st, msg = (field(ex, ns, NS.index(k), "?") for k in ("name", "status", "message"))
+    st = field(ex, ns, NS.index("status"), "rules::Status")
+    bad = []
+    for p in ex.paths:
+        r = p.ret
+        outs = calls(p, "end_record")
+        if p.outcome != "return" or len(outs) != 1 or r != outs[0][3]:
+            bad.append(pc_term(p.pc))
+            continue
+        o = outs[0]
+        sent = o[2][2] if len(o[2]) > 2 else None
+        if not same(o[2][1], ctx) or sent is None:
+            bad.append(pc_term(p.pc))
+            continue
+        if same(sent, rec):
+            # passed on untouched: fine for every kind of record (for a RuleCheck of ANOTHER name this is required)
+            eqs = calls(p, "eq") + calls(p, "ne")
+            bad.append("false")
+            continue
+        if sent[0] == "variant" and sent[2] == "RuleCheck" and sent[3] and same(sent[3][0], ns):
+            bad.append(f"(and {pc_term(p.pc)} (not {is_rule}))")        # re-wrapped with the very same name / status / message
+            continue
+        ok = (sent[0] == "variant" and sent[2] == "RuleCheck" and sent[3] and sent[3][0][0] == "struct")
+        if ok:
+            f = sent[3][0][2]
+            same_status = f.get("status") is not None and f["status"][0] == "enum" and st[0] == "enum" and f["status"][2] == st[2]
+            ok = same(f.get("name"), nm) and same_status
+            eqs = calls(p, "eq") + calls(p, "ne")
+            # a rebuilt record only for the rule this call names (the name comparison must have been made and come out equal)
+            if ok and eqs:
+                e0 = eqs[0]
+                cond = e0[3][1] if e0[1] == "eq" else f"(not {e0[3][1]})"
+                bad.append(f"(and {pc_term(p.pc)} (not (and {is_rule} {cond})))")
+                continue
+        bad.append(pc_term(p.pc))
+    c = a.discharge("parameterised-call/end_record/only-the-message-of-the-called-rule", ex, bad,
+                    "record hook of a parameterised rule call: every record is passed to the caller's tracker under the same context; a record is "
+                    "rebuilt only if it is the RuleCheck of the rule this call NAMES, and then it keeps that record's name and STATUS (only the "
+                    "message may become the call's custom message); all other records - other rules' RuleChecks included - go through unchanged")
+    if c:
+        c["replay"] = replay_param_call_records(a)
+        c["reproduced"] = c["replay"].get("reproduced", False)
+        a.candidates.append(c)
+
+
+def replay_param_call_records(a):
+    """parameterised rule calls with / without a custom message, passing / failing / skipped, one nested in another: the
+    record of the called rule has the status its body gives, and each Rule entry carries its OWN call's message"""
+    import os, shutil, subprocess, tempfile
+    exe = a.cli()
+    if not exe:
+        return {"reproduced": False, "note": "native build failed"}
+    rules = ("rule inner(v) {\n  %v == 1\n}\nrule outer(w) {\n  inner(%w) <<inner call msg>>\n}\n"
+             "rule top_fail {\n  outer(b) <<outer call msg>>\n}\nrule top_pass {\n  outer(a) <<outer call msg>>\n}\n"
+             "rule plain_fail {\n  inner(b)\n}\nrule skipper {\n  inner(L[ x == 9 ].y) <<skip msg>>\n}\n")
+    data = '{"a":\n 1, "b": 2, "L": [ {"x": 1, "y": 1} ]}\n'
+    d = tempfile.mkdtemp(prefix="cfnverif_replay_")
+    env = dict(os.environ)
+    env["RUST_BACKTRACE"] = "0"
+    out = []
+    try:
+        open(os.path.join(d, "r.guard"), "w").write(rules)
+        open(os.path.join(d, "d.json"), "w").write(data)
+        pr = subprocess.run([exe, "validate", "-r", "r.guard", "-d", "d.json", "--print-json", "--show-summary", "none"], cwd=d, capture_output=True,
+                            text=True, env=env, timeout=60)
+        txt = pr.stdout
+        i = txt.find("{")
+        try:
+            tree = json.JSONDecoder().raw_decode(txt[i:])[0]
+        except Exception as e:
+            return {"reproduced": False, "note": f"no record tree: {e}"}
+
+        def walk(n, acc):
+            c_ = n.get("container") or {}
+            if "RuleCheck" in c_:
+                kids = []
+                for ch in n.get("children", []):
+                    walk(ch, kids)
+                acc.append({"name": c_["RuleCheck"]["name"], "status": c_["RuleCheck"]["status"], "message": c_["RuleCheck"].get("message"), "inner": kids})
+            else:
+                for ch in n.get("children", []):
+                    walk(ch, acc)
+        top = []
+        walk(tree, top)
+        byname = {t["name"]: t for t in top}
+
+        def find(t, name):
+            for k in t["inner"]:
+                if k["name"] == name:
+                    return k
+                r_ = find(k, name)
+                if r_:
+                    return r_
+            return None
+        exp = {"top_fail": ("FAIL", [("outer", "FAIL", "outer call msg"), ("inner", "FAIL", "inner call msg")]),
+               "top_pass": ("PASS", [("outer", "PASS", "outer call msg"), ("inner", "PASS", "inner call msg")]),
+               "plain_fail": ("FAIL", [("inner", "FAIL", None)]), "skipper": ("SKIP", [("inner", "SKIP", "skip msg")])}
+        for rn, (rs, kids) in exp.items():
+            t = byname.get(rn)
+            if t is None or t["status"] != rs:
+                out.append({"rule": rn, "expected_status": rs, "observed": t and t["status"]})
+                continue
+            for kn, ks, km in kids:
+                k = find(t, kn)
+                if k is None or k["status"] != ks or (k.get("message") or None) != km:
+                    out.append({"rule": rn, "called": kn, "expected": [ks, km], "observed": k and [k["status"], k.get("message")]})
+        return {"reproduced": bool(out), "mismatches": out[:4], "rules_file": rules, "data": data}
+    finally:
+        shutil.rmtree(d, ignore_errors=True)
+
+
+def root_scope_rule_table(a):
+    """root_scope(): the name -> definitions table that rule_status consults holds EVERY definition of every rule"""
+    RF = struct_fields(a.src, "rules/exprs.rs", "RulesFile")
+    RU = struct_fields(a.src, "rules/exprs.rs", "Rule")
+    PR = struct_fields(a.src, "rules/exprs.rs", "ParameterizedRule")
+    ex = a.exec(r"(?:(?:rules::)?eval_context::)?root_scope", {"extract_variables": lambda ex, av: ex.opq(), "next": mirexec.m_iter_next,
+                                                                "into_iter": mirexec.m_new_iter, "iter": mirexec.m_new_iter,
+                                                                "with_capacity": lambda ex, av: ex.opq(), "as_str": mirexec.m_identity,
+                                                                "entry": lambda ex, av: ex.opq(), "or_insert": lambda ex, av: ex.opq(),
+                                                                "or_insert_with": lambda ex, av: ex.opq(), "or_default": lambda ex, av: ex.opq(),
+                                                                "root_scope_with": lambda ex, av: ex.opq(), "len": lambda ex, av: ("int", ex.len_of(av[0]))},
+                log=("push", "insert", "entry", "or_insert", "or_insert_with", "or_default", "root_scope_with", "with_capacity"),
+                unroll=2, max_paths=20000, first_arg_re=r"_1: &(?:exprs::)?RulesFile")
+    a.fns.append("rules::eval_context::root_scope")
+    rf = ex.arg_env["_1"]
+    rules = field(ex, rf, RF.index("guard_rules"), "Vec")
+    prules = field(ex, rf, RF.index("parameterized_rules"), "Vec")
+    bad, nrule = [], 0
+    for p in ex.paths:
+        if p.outcome != "return":
+            bad.append(pc_term(p.pc))
+            continue
+        evs = [e for e in p.events if e[0] == "call"]
+        caches = [e for e in evs if e[1] == "with_capacity"]
+        its = iterations(ex, p, it_filter=lambda ev: ex.iter_src.get(ev[2][0][1], ev[2][0]) == rules)
+        bnds = [i for _k, _e, _t, i in its] + [len(p.events)]
+        probs = []
+        table = caches[0][3] if caches else None
+        for n, (k, el, tag, i0) in enumerate(its):
+            if f"(= {tag} 1)" not in p.pc or el is None:
+                continue
+            nrule += 1
+            seg = [e for i, e in enumerate(p.events) if bnds[n] <= i < bnds[n + 1] and e[0] == "call"]
+            ent = [e for e in seg if e[1] == "entry"]
+            oi = [e for e in seg if e[1] in ("or_insert", "or_default")]
+            pu = [e for e in seg if e[1] == "push" and len(e[2]) == 2]
+            name = field(ex, el, RU.index("rule_name"), "String")
+            ok = (len(ent) == 1 and table is not None and same(ent[0][2][0], table) and same(ent[0][2][1], name) and len(oi) == 1 and same(oi[0][2][0], ent[0][3])
+                  and len(pu) == 1 and same(pu[0][2][0], oi[0][3]) and same(pu[0][2][1], el))
+            if not ok:
+                probs.append("a rule definition is not APPENDED to the list kept under its own name")
+        rsw = [e for e in evs if e[1] == "root_scope_with"]
+        if not (len(rsw) == 1 and table is not None and any(same(x, table) for x in rsw[0][2]) and p.ret == rsw[0][3]):
+            probs.append("the table built is not the one handed to the scope")
+        # parameterised rules: stored under their own name
+        its2 = iterations(ex, p, it_filter=lambda ev: ex.iter_src.get(ev[2][0][1], ev[2][0]) == prules)
+        bnds2 = [i for _k, _e, _t, i in its2] + [len(p.events)]
+        for n, (k, el, tag, i0) in enumerate(its2):
+            if f"(= {tag} 1)" not in p.pc or el is None:
+                continue
+            seg = [e for i, e in enumerate(p.events) if bnds2[n] <= i < bnds2[n + 1] and e[0] == "call" and e[1] == "insert"]
+            rule = field(ex, el, PR.index("rule"), "Rule")
+            nm = field(ex, rule, RU.index("rule_name"), "String")
+            if not (len(seg) == 1 and len(seg[0][2]) == 3 and same(seg[0][2][1], nm) and same(seg[0][2][2], el)):
+                probs.append("a parameterised rule is not stored under its own name")
+        bad.append(pc_term(p.pc) if probs else "false")
+    c = a.discharge("root_scope/every-definition-in-the-table", ex, bad,
+                    f"root_scope, <= 2 rules ({nrule} rule visits): every rule definition is appended to the list kept under ITS OWN name (a name "
+                    "defined twice keeps both definitions, in file order), that table is the one handed to the scope, and every parameterised "
+                    "rule is stored under its own name", witness=False)
+    if c:
+        c["replay"] = replay_named_rules(a)
+        if not c["replay"].get("reproduced"):
+            c["replay"] = replay_multi_definition_reference(a)
+        c["reproduced"] = c["replay"].get("reproduced", False)
+        a.candidates.append(c)
+
+
+def replay_multi_definition_reference(a):
+    """a rule name defined twice with exclusive guards, referenced by another rule, in every order of the three rules"""
+    import itertools
+    exe = a.cli()
+    if not exe:
+        return {"reproduced": False, "note": "native build failed"}
+    parts = {"d1": "rule tls when env == \"dev\" {\n  port == 80\n}\n", "d2": "rule tls when env == \"prod\" {\n  port == 443\n}\n",
+             "ref": "rule service_ok {\n  tls\n}\n"}
+    data = '{"env":\n "prod", "port": 443}\n'
+    out, tried = [], []
+    for order in itertools.permutations(parts):
+        rules = "".join(parts[k] for k in order)
+        rc, rep, err = a.run_structured(exe, rules, [data])
+        if not (rep and isinstance(rep, list) and rep):
+            tried.append({"order": order, "problem": "no report"})
+            continue
+        ok = "service_ok" in rep[0].get("compliant", []) and rc == 0
+        tried.append({"order": order, "ok": ok})
+        if not ok:
+            out.append({"order": list(order), "rules_file": rules, "expected": "service_ok PASS (the applicable definition of tls passes)", "exit": rc,
+                        "compliant": rep[0].get("compliant"), "not_compliant": [x["Rule"]["name"] for x in rep[0].get("not_compliant", []) if "Rule" in x]})
+    return {"reproduced": bool(out), "mismatches": out[:3], "data": data, "tried": tried}
+
+
 
 SITES = {
     "C06": [structured_report, structured_parse_closure, junit_exit_code, junit_test_case, junit_report, validate_execute_step, test_generic_report, test_result_exit_code],
@@ -2830,10 +3045,11 @@ SITES = {
     "C07": [flags_verdict_wiring, reporter_chain, library_entry_wiring, structured_report, junit_test_case, validate_execute_step,
             data_input_params_wiring, structured_merge_closure],
     "C16": [test_generic_report, test_get_by_result, test_get_by_rules, test_structured_evaluate, test_result_exit_code],
-    "C09": [report_partition, report_rule_listing, report_combine_union, unary_empty_on_expr],
+    "C02": [param_ctx_end_record],
+    "C09": [report_partition, report_rule_listing, report_combine_union, unary_empty_on_expr, param_ctx_end_record],
     "C15": [scope_resolution, param_rule_call, param_ctx_resolve],
-    "C04": [rule_status_semantics],
-    "C01": [rule_status_semantics],
+    "C04": [rule_status_semantics, root_scope_rule_table],
+    "C01": [rule_status_semantics, root_scope_rule_table],
     "C17": [merge_map, merge_unwrap, param_files_fold_step, data_input_params_wiring, structured_merge_closure],
     "C08": [merge_unwrap, rulegen_unwrap],
 }
